@@ -218,6 +218,17 @@ check(
     "DESIGN.md §3 C20",
 )
 
+check(
+    "C11",
+    "engine-A",
+    "fault_enumeration",
+    "runtime monitoring with fault injection: crash-point injector in a real scheduler process + coarse-phase signals, real job processes with go-file controlled phases; offline exactly-once / adoption / conservation checkers over the append-only task and job-script logs; quiescence certificates for hang verdicts",
+    "A real scheduler running a chain plan with a file token is killed at sampled line events of its submit/start/run path and at four coarse phases with KILL/TERM/INT; a second real run "
+    "of the same plan must finish with every job DONE, exactly one body execution and one job-script start per adoptable job overall, surviving job processes, and an empty token directory.",
+    "Trusted: crash locations are recorded by the injector (event order varies between runs with real threads); a hang verdict needs quiescence certificates, time-outs alone are inconclusive.",
+    "DESIGN.md §2.4, §2.5, §3 C11",
+)
+
 NOT_APPLICABLE = []
 
 
